@@ -132,12 +132,17 @@ PARAMS = {
         'uniform': P('uniform', 0.0, 0.8)}},
     'T_irr': {'mode': 'linear', 'priors': {
         'default': P('default-lin', 900.0, 1900.0)}},
+    # owned by the observation, not by the model: the observed values are shifted by it
+    'obs_offset': {'mode': 'linear', 'priors': {
+        'default': P('default-lin', -2e-4, 3e-4),
+        'uniform': P('uniform', 1.5e-4, -1e-4),
+        'gaussian': P('gaussian', 5e-5, 4e-5)}},
 }
 
 # start values of every parameter (the model's construction state)
 START = {'planet_radius': 1.0, 'T': 1000.0, 'H2O': 1e-3, 'CH4': 1e-4, 'clouds_pressure': 1e3,
          'T_surface': 1600.0, 'T_top': 600.0, 'T_point1': 1000.0, 'P_point1': 1e3,
-         'T_irr': 1400.0, 'kappa_irr': 0.01}
+         'T_irr': 1400.0, 'kappa_irr': 0.01, 'obs_offset': 0.0}
 
 POOL = {'iso': ['planet_radius', 'T', 'H2O', 'CH4', 'clouds_pressure'],
         'npoint': ['planet_radius', 'T_surface', 'T_point1', 'P_point1', 'H2O', 'CH4',
@@ -205,6 +210,8 @@ def build_model(tp='iso'):
 def set_param(p, name, value):
     """set one parameter of a Parts model through the owning component's own setter"""
     value = float(value)
+    if name == 'obs_offset':
+        return              # not a model parameter (the oracle adds it to the observed values itself)
     if name == 'planet_radius':
         p.planet.radius = value
     elif name == 'T':
@@ -256,9 +263,37 @@ def error_bars(kind, n):
     return [(2.0 + 1.7 * i) * 1e-5 for i in range(n)]
 
 
-def build_obs(layout, spectrum, errors):
+_OFFSET_CLS = []
+
+
+def build_obs(layout, spectrum, errors, offset=False):
+    """offset=True: an observation that owns a fitting parameter 'obs_offset' added to every observed value (the
+    documented way to fit instrument systematics: a spectrum class with its own @fitparam)."""
     from taurex.data.spectrum.array import ArraySpectrum
-    return ArraySpectrum(obs_rows(layout, spectrum, errors))
+    if not offset:
+        return ArraySpectrum(obs_rows(layout, spectrum, errors))
+    if not _OFFSET_CLS:
+        from taurex.core import fitparam
+
+        class OffsetSpectrum(ArraySpectrum):
+            def __init__(self, rows):
+                ArraySpectrum.__init__(self, rows)
+                self._offset = 0.0
+
+            @property
+            def spectrum(self):
+                return ArraySpectrum.spectrum.fget(self) + self._offset
+
+            @fitparam(param_name='obs_offset', param_latex='$o$', default_mode='linear', default_fit=False,
+                      default_bounds=[-1e-3, 1e-3])
+            def offset(self):
+                return self._offset
+
+            @offset.setter
+            def offset(self, value):
+                self._offset = value
+        _OFFSET_CLS.append(OffsetSpectrum)
+    return _OFFSET_CLS[0](obs_rows(layout, spectrum, errors))
 
 
 def ref_forward(tp, values):
@@ -297,6 +332,7 @@ def configure(opt, model, fitted, priors):
         if model.fittingParameters[name][5]:
             opt.disable_fit(name)
     mine = {}
+    fitted = [n for n in fitted if n != 'obs_offset'] + [n for n in fitted if n == 'obs_offset']
     for name in fitted:
         letter = priors.get(name, 'default')
         pr = PARAMS[name]['priors'][letter]
